@@ -73,6 +73,56 @@ def aval_of(r, call):
     return r["Aval2"] if (call["direct"] and "Aval2" in r) else r["Aval"]
 
 
+def driver_oracle(c, r, p):
+    """the USER's view: the berr the expert driver reports must be the componentwise backward error of the X it RETURNS for the
+    system it was GIVEN (original A, B, trans, storage).  The componentwise backward error is invariant under the row and
+    column scalings of equilibration, so the reported value has to cover it up to rounding of the scaling itself."""
+    from fractions import Fraction as Fr
+    n, cx = c["n"], ll.is_cx(p)
+    nv = 2 if cx else 1
+    if r.get("info") not in (0, n + 1) or "X" not in r or "berr" not in r:
+        return []
+    eps = r["mach"][0]
+    A0 = ll.dense_from_cols(n, c["ptr"], c["ind"], ll.to_entries(c["val"], p), 0)
+    M = A0 if c["stype"] == 0 else ll.transpose(A0)             # the user's matrix (row-wise storage: the lists are rows)
+    if c["trans"] == 1 or (c["trans"] == 2 and not cx):
+        M = ll.transpose(M)
+    elif c["trans"] == 2:
+        M = [[x.conjugate() for x in row] for row in ll.transpose(M)]
+    Mx = ll.exact_matrix(M, cx)
+    zero = (Fr(0), Fr(0)) if cx else Fr(0)
+
+    def cmul(a, b):
+        return (a[0] * b[0] - a[1] * b[1], a[0] * b[1] + a[1] * b[0]) if cx else a * b
+
+    def abs1(a):
+        return abs(a[0]) + abs(a[1]) if cx else abs(a)
+    fails = []
+    Bs = colsplit(c["b"], n, c["nrhs"], nv); Xs = colsplit(r["X"], n, c["nrhs"], nv)
+    for k in range(c["nrhs"]):
+        if any(v != v or v in (float("inf"), float("-inf")) for v in Xs[k]):
+            fails.append(("berr-untruthful", "rhs %d: the returned X has non-finite entries" % k)); continue
+        b = ll.exact_matrix([ll.to_entries(Bs[k], p)], cx)[0]; x = ll.exact_matrix([ll.to_entries(Xs[k], p)], cx)[0]
+        omega = Fr(0)
+        for i in range(n):
+            ax = zero; den = abs1(b[i])
+            for j in range(n):
+                if Mx[i][j] != zero:
+                    t = cmul(Mx[i][j], x[j]); ax = (ax[0] + t[0], ax[1] + t[1]) if cx else ax + t
+                    den += abs1(Mx[i][j]) * abs1(x[j])
+            res = abs1((b[i][0] - ax[0], b[i][1] - ax[1])) if cx else abs(b[i] - ax)
+            if den == 0:
+                if res != 0: omega = Fr(1)
+                continue
+            omega = max(omega, res / den)
+        berr = r["berr"][k]
+        tol = SLACK * (float(berr) + (n + 3) * eps * (4 if cx else 1))
+        if float(omega) > tol:
+            fails.append(("berr-untruthful", "rhs %d: the driver reports berr = %.6e, the X it returned has componentwise backward error %.6e "
+                          "for the system it was given (equed %s)" % (k, berr, float(omega), r.get("equed"))))
+    return fails
+
+
 def oracle(c, r, p, call):
     fails, st = [], {}
     n, cx = c["n"], ll.is_cx(p)
@@ -251,6 +301,9 @@ def gen_cases(ctx, p, count):
             n = 16
         stype, trans = combos[k % 6]
         fact = rng.choice([0, 1, 1])
+        if k < 6:
+            # every precision sees an equilibrated system in both storage orientations and all three transposes
+            kind = "scaled"; fact = 1
         u = rng.choice([1.0, 1.0, 0.5, 0.1, rng.uniform(0.1, 1.0)])
         nprocs = 1 if k % 4 != 3 else rng.choice([2, 4])
         nrhs = rng.choice([1, 1, 2, 3])
@@ -318,6 +371,12 @@ def eval_batch(ctx, p, exe, cases, tag, ienv=None):
             ctx.corr("real CONJ calls (oracle skipped: finding F3 / C07)")
         else:
             fails, st = oracle(c, r, p, call)
+            if not call["direct"] and not fails and c.get("mode", "ssvx") == "ssvx":
+                dfl = driver_oracle(c, r, p)
+                if dfl:
+                    fails = dfl
+                else:
+                    ctx.corr("oracle: driver-level berr covers the backward error of the returned X for the user's system")
         if st.get("tight_checked"):
             ctx.corr("oracle: berr <= 40 (n+1) eps checked (cond < 1/sqrt(eps))", st["tight_checked"])
         if st.get("ferr_checked"):
